@@ -198,6 +198,60 @@ pub fn nested_doc(r: &mut Rng, depth: usize) -> Value<'static> {
     }
     v
 }
+/// small-scope exhaustive enumeration: EVERY document with at most `max_nodes` values (containers and
+/// scalars counted alike) over a small alphabet of scalars and keys.  Random generation samples the
+/// space; this covers its smallest corner completely (every shape, every position of every empty
+/// container and zero-length scalar).
+pub fn enum_docs(max_nodes: usize) -> Vec<Value<'static>> {
+    fn scalars() -> Vec<Value<'static>> {
+        vec![Value::Null, Value::Bool(true), Value::Number(Number::UInt64(0)), Value::Number(Number::UInt64(1)), Value::Number(Number::Float64(1.0)),
+             Value::String(Cow::Borrowed("")), Value::String(Cow::Borrowed("a"))]
+    }
+    const KEYS: &[&str] = &["", "a", "b"];
+    // all lists of documents whose node counts sum to exactly n (n >= 0), as children of a container
+    fn lists(n: usize, memo: &Vec<Vec<Value<'static>>>) -> Vec<Vec<Value<'static>>> {
+        if n == 0 { return vec![vec![]]; }
+        let mut out = vec![];
+        for first in 1..=n {
+            for head in &memo[first] {
+                for tail in lists(n - first, memo) {
+                    let mut l = vec![head.clone()];
+                    l.extend(tail);
+                    out.push(l);
+                }
+            }
+        }
+        out
+    }
+    // memo[k] = all documents with exactly k nodes
+    let mut memo: Vec<Vec<Value<'static>>> = vec![vec![]; max_nodes + 1];
+    for k in 1..=max_nodes {
+        let mut docs = vec![];
+        if k == 1 { docs.extend(scalars()); }
+        for children in lists(k - 1, &memo) {
+            docs.push(Value::Array(children.clone()));
+            // objects: the children under every strictly increasing choice of keys
+            let m = children.len();
+            if m <= KEYS.len() {
+                let mut idx: Vec<usize> = (0..m).collect();
+                loop {
+                    let mut o = BTreeMap::new();
+                    for (i, c) in children.iter().enumerate() { o.insert(KEYS[idx[i]].to_string(), c.clone()); }
+                    docs.push(Value::Object(o));
+                    // next combination
+                    let mut i = m;
+                    while i > 0 && idx[i - 1] == KEYS.len() - m + (i - 1) { i -= 1; }
+                    if i == 0 { break; }
+                    idx[i - 1] += 1;
+                    for j in i..m { idx[j] = idx[j - 1] + 1; }
+                }
+            }
+        }
+        memo[k] = docs;
+    }
+    memo.into_iter().flatten().collect()
+}
+
 pub const NEST_DEPTHS: &[usize] = &[33, 66, 100, 129, 260, 520];
 
 pub fn gen_value(r: &mut Rng, cfg: &DocCfg, depth: u32) -> Value<'static> {
